@@ -40,7 +40,9 @@ def lit_text(v, rng, dep=None):
     f = Fraction(n, d)
     dec = "%s" % (f.numerator / f.denominator)           # finite for the vocabulary (halves, quarters)
     assert Fraction(dec) == f, (n, d)
-    forms = [dec, dec.lstrip("0") if dec.startswith("0.") else dec, "%de-%d" % (int(dec.replace(".", "")), len(dec.split(".")[1])), dec + "e0", dec + "E+0"]
+    digits, places = int(dec.replace(".", "")), len(dec.split(".")[1])
+    forms = [dec, dec.lstrip("0") if dec.startswith("0.") else dec, "%de-%d" % (digits, places), dec + "e0", dec + "E+0",
+             "%d00e-%d" % (digits, places + 2), "%sE-1" % str(Fraction(dec) * 10).replace("/1", "") if (Fraction(dec) * 10).denominator == 1 else dec]
     return rng.choice(forms)
 
 def render(toks, rng, blanks=True, dep=None):
@@ -175,6 +177,7 @@ def extras_worker(seed):
              ("(-6) & 5", "0"), ("(-6) | 5", "-1"), ("(-6) ^ 5", "-1"), ("6 & 3 | 8 ^ 1", str(6 & 3 | 8 ^ 1)),
              ("{1, 2, 3}.max - {1, 2, 3}.min + {1, 2, 3}.count", "5"), ("{{1}, {1, 2}}.count", "2"),
              # powers with a non-integer exponent whose value is an exactly representable rational
+             ("1e-3", "1/1000"), ("300000e-5", "3"), ("1e-3 * 1000 == 1", "true"), ("25e-1", "5/2"), ("1.5e-2", "3/200"), ("7E-1 + 3e-1", "1"),
              ("4 ** 0.5", "2"), ("4 ** 30.5", str(2 ** 61)), ("(1/4) ** 12.5 == 1 / 2 ** 25", "true"), ("0.25 ** 0.5", "1/2"),
              ("16 ** 0.75", "8")]
     for text, want in cases:
